@@ -179,8 +179,19 @@ func (p *bpeer) sync(d time.Duration) bool {
 	p.syncN++
 	id := vSyncIDBase + p.syncN
 	p.mu.Unlock()
-	p.conn.peerSend(refEncode(refPacket{Type: rtPublish, QoS: 1, ID: id, Topic: vSyncTopic}))
-	return p.waitRecv(d, func(pk refPacket) bool { return pk.Type == rtPubAck && pk.ID == id }, 1)
+	if !p.conn.peerSend(refEncode(refPacket{Type: rtPublish, QoS: 1, ID: id, Topic: vSyncTopic})) {
+		return false // the link is already gone
+	}
+	ok := false
+	vWaitUntil(d, func() bool {
+		if p.countRecv(func(pk refPacket) bool { return pk.Type == rtPubAck && pk.ID == id }) >= 1 {
+			ok = true
+			return true
+		}
+		lc, _ := p.conn.isClosed()
+		return lc // the client closed the transport: the marker will never be answered
+	})
+	return ok
 }
 
 func vIsSyncPkt(pk refPacket) bool {
